@@ -7,6 +7,8 @@ A case is a tuple; `line(case)` renders the tab-separated line both the Rust har
 and the OCaml driver read:
    ("A", id, kind, entry, cfg, cap, bytes)
    ("H", id, kind, cap, [(entry, cfg, ucap, bytes), ...])
+   ("R", id, kind, cap, [(entry, cfg, cap_i, bytes), ...])   recycled buffer: every call is made with a FRESH value over a
+                                                             fresh array, its bytes written to ONE address; the last reported
    ("S", id, backend, cls, align, bytes)
    ("K", id, which, bytes)
    ("U", id, bytes)
@@ -60,9 +62,9 @@ def line(c):
     if t == "A":
         _, cid, kind, entry, cfg, cap, b = c
         return "A\t%s\t%s\t%d\t%d\t%d\t%s" % (cid, kind, entry, cfg, cap, hx(b))
-    if t == "H":
+    if t in ("H", "R"):
         _, cid, kind, cap, calls = c
-        parts = ["H", cid, kind, str(cap), str(len(calls))]
+        parts = [t, cid, kind, str(cap), str(len(calls))]
         for (e, cf, uc, b) in calls:
             parts += [str(e), str(cf), str(uc), hx(b)]
         return "\t".join(parts)
